@@ -112,6 +112,30 @@ def run(ctx):
         ops.append(f"tsdist|{int(plus1)}|{'-' if obsF is None else rat(obsF)}|{rows(m.tolist(), ints)}|{rows3(draws)}")
         meta.append(("tsdist", det, res))
     hazard_block(ctx)
+    # ---- a ratings buffer refilled in place between two calls: second result as on a fresh array
+    for _ in range(ctx.n(40, 400)):
+        R_ = ctx.rng.randint(2, 5); Ns_ = ctx.rng.randint(1, 6)
+        a1 = np.array([[ctx.rng.randint(0, 1) for _ in range(Ns_)] for _ in range(R_)]); a2 = np.array([[ctx.rng.randint(0, 1) for _ in range(Ns_)] for _ in range(R_)])
+        buf = a1.copy(); ra = guarded(irr.compute_ts, buf); buf[...] = a2
+        rb = guarded(irr.compute_ts, buf); rf = guarded(irr.compute_ts, a2.copy())
+        sb = guarded(irr.simulate_ts_dist, buf, None, 4, True, 5, True); sf = guarded(irr.simulate_ts_dist, a2.copy(), None, 4, True, 5, True)
+        ctx.case(("refill", a1.tobytes(), a2.tobytes(), R_, Ns_), True); ctx.count("buffer-refilled-in-place")
+        okk = rb[0] == "ok" and rf[0] == "ok" and rb[1] == rf[1] and sb[0] == "ok" and sf[0] == "ok" and np.array_equal(np.array(sb[1]["dist"]), np.array(sf[1]["dist"])) and sb[1]["pvalue"] == sf[1]["pvalue"]
+        if not okk:
+            ctx.violation("oracle", {"call": "compute_ts / simulate_ts_dist", "first": a1.tolist(), "second": a2.tolist(),
+                                     "issue": "on a ratings buffer refilled in place the result differs from the result on a fresh array with the same contents",
+                                     "refilled": str(rb[1:])[:60] + " " + str(sb[1:])[:160], "fresh": str(rf[1:])[:60] + " " + str(sf[1:])[:160]}, site="compute_ts")
+    # ---- what one call handed back must not change when the function is called again (no shared result buffers)
+    for keep_ in (True, False):
+        m1 = np.array([[1, 0, 1, 1], [1, 1, 0, 1], [0, 0, 1, 1]]); m2 = 1 - m1
+        a = guarded(irr.simulate_ts_dist, m1, None, 6, keep_, 11, True)
+        snap_ = None if a[0] != "ok" else {k: (np.array(v).copy() if hasattr(v, "__len__") else v) for k, v in a[1].items()}
+        b = guarded(irr.simulate_ts_dist, m2, None, 6, keep_, 12, False)
+        ctx.case(("stable-result", keep_), True); ctx.count("result-stability")
+        okk = a[0] == "ok" and b[0] == "ok" and all((np.array_equal(np.array(a[1][k]), snap_[k]) if hasattr(snap_[k], "__len__") else (a[1][k] == snap_[k] or (a[1][k] is None and snap_[k] is None))) for k in snap_)
+        if not okk:
+            ctx.violation("oracle", {"call": "simulate_ts_dist", "keep_dist": keep_, "issue": "the result returned by one call changed when simulate_ts_dist was called again (shared result buffer)",
+                                     "first_now": str(a[1:])[:300]}, site="simulate_ts_dist")
     # ---- simulate_npc_dist
     for _ in range(ctx.n(150, 2000)):
         B = ctx.rng.randint(2, 25); S = ctx.rng.randint(2, 5)
